@@ -183,6 +183,63 @@ def h_inv_getlink(loc: str) -> bool:
     return done(got == want and other is None)
 
 
+# ------------------------------------------------------------------ well-formed lines of every type shape
+ITYPES = ["py:class", "py:function", "py:", "py:a:b", "std:doc", "std:label", "rst:directive:option", "c:function", "stray", ":", ":py", "PY:class", "py", "py::x"]
+IPRIOS = ["1", "-1", "0"]
+ILOCS = ["page.html", "page.html#$", "$"]
+IDISP = ["-", "A title", "- -"]
+
+
+def check_typed_line(ti, pi, li, di):
+    typ = ITYPES[ti]
+    line = "some.name %s %s %s %s" % (typ, IPRIOS[pi], ILOCS[li], IDISP[di])
+    log = Log()
+    inv = psphinx.SphinxInventory(logger=log)
+    payload = "first.name py:class -1 first.html -\n" + line + "\n" + GOOD + "\n"
+    data = b"# Sphinx inventory version 2\n# Project: p\n# Version: 1\n# The rest of this file is compressed with zlib.\n" + zlib.compress(payload.encode("utf-8"))
+    try:
+        inv.update(Cache(data), "http://base/objects.inv")
+    except Exception as e:
+        note(why="a well-formed inventory line makes SphinxInventory.update raise", line=line, exc=repr(e))
+        return False
+    if inv.getLink("good.name") != "http://base/good.html#name" or inv.getLink("first.name") != "http://base/first.html":
+        note(why="usable lines of the same payload lost", line=line)
+        return False
+    got = inv.getLink("some.name")
+    if typ.startswith("py:"):
+        want = "http://base/" + ILOCS[li].replace("$", "some.name")
+        if got != want:
+            note(why="a line of the Python domain does not resolve to its location", line=line, got=got, want=want)
+            return False
+    elif got is not None:
+        note(why="a line outside the Python domain is used for Python names", line=line, got=got)
+        return False
+    if [c for c in log.calls if c[2] < 0]:
+        note(why="a well-formed line is reported as an error", line=line, calls=log.calls)
+        return False
+    return True
+
+
+@harness(
+    timeout=(200, 600), cls="F", tracing="concrete-after-choice", twin="first",
+    code=["pydoctor.sphinx.SphinxInventory._parseInventory (domain filter)", "pydoctor.sphinx._parseInventoryLine", "SphinxInventory.update/getLink"],
+    bounds={"quick": "well-formed five-column lines: 14 type columns (py:role, py: alone, two colons as in rst:directive:option, other domains, no colon, leading colon, upper case) x 3 priorities x 3 locations (with and without $) x 3 display names, between two good lines, through update()", "thorough": "same"},
+    outside="type columns outside the table",
+)
+def h_inv_types(ti: int, pi: int, li: int, di: int) -> bool:
+    """
+    pre: 0 <= ti < 14 and 0 <= pi <= 2 and 0 <= li <= 2 and 0 <= di <= 2
+    post: _
+    """
+    ti = pick(ti, 0, 13)
+    pi = pick(pi, 0, 2)
+    li = pick(li, 0, 2)
+    di = pick(di, 0, 2)
+    with NoTracing():
+        ok = check_typed_line(ti, pi, li, di)
+    return done(ok)
+
+
 # ------------------------------------------------------------------ K17c writer on the mini model
 from lib import minimodel as M
 
